@@ -45,10 +45,18 @@ type zzPr struct{ day, com, tgt, p int }
 
 type zzCl struct{ day, acc int }
 
+// open directive on a day: the account's only open (instead of the one before the
+// first day), or, with reopen, a second open after a close
+type zzOp struct {
+	day, acc int
+	reopen   bool
+}
+
 type zzShape struct {
 	bk   []zzBk
 	pr   []zzPr
 	cl   []zzCl // close directives
+	op   []zzOp // open directives on later days
 	tied bool   // two more transactions with the same date and description, one's postings a prefix of the other's
 }
 
@@ -81,6 +89,12 @@ var zzShapes = []zzShape{
 	15: {bk: []zzBk{{0, aEq, aA, 0, 0}}, tied: true},
 	// one account holding the same quantity of two commodities
 	16: {bk: []zzBk{{0, aEq, aA, 1, 0}, {0, aEq, aA, 2, 0}, {1, aEq, aL, 1, 1}}},
+	// a foreign position sold down to exactly zero, the account closed, the price changing afterwards
+	17: {bk: []zzBk{{0, aEq, aX, 0, 0}, {1, aEq, aA, 1, 1}, {2, aA, aEq, 1, 1}}, pr: []zzPr{{0, 1, 0, 0}, {2, 1, 0, 1}, {4, 1, 0, 2}}, cl: []zzCl{{3, aA}}},
+	// an account that is closed, opened again and used again
+	18: {bk: []zzBk{{0, aEq, aA, 0, 0}, {1, aA, aEq, 0, 0}, {4, aEq, aA, 0, 1}}, cl: []zzCl{{2, aA}}, op: []zzOp{{3, aA, true}}},
+	// an account opened only after other accounts have been booked
+	19: {bk: []zzBk{{0, aEq, aA, 0, 0}, {4, aA, aYZ, 0, 1}}, op: []zzOp{{3, aYZ, false}}},
 }
 
 type zzInputs struct {
@@ -139,7 +153,7 @@ func zzBuildShape(reg *model.Registry, sh zzShape, in zzInputs) *journal.Builder
 
 // zzOwn is the number of directives of a shape besides the opens.
 func zzOwn(sh zzShape) int {
-	n := len(sh.pr) + len(sh.cl) + len(sh.bk)
+	n := len(sh.pr) + len(sh.cl) + len(sh.bk) + len(sh.op)
 	if sh.tied {
 		n += 2
 	}
@@ -159,10 +173,22 @@ func zzBuildShapePerm(reg *model.Registry, sh zzShape, in zzInputs, perm []int) 
 // zzShapeDirectives returns the directives of a shape in arrival order.
 func zzShapeDirectives(reg *model.Registry, sh zzShape, in zzInputs, perm []int) []model.Directive {
 	var b zzDirList
-	for _, name := range zzAccounts {
-		b.Add(&model.Open{Date: zzDate("2019-12-31"), Account: reg.Accounts().MustGet(name)})
+	for ai, name := range zzAccounts {
+		late := false
+		for _, o := range sh.op {
+			if o.acc == ai && !o.reopen {
+				late = true
+			}
+		}
+		if !late {
+			b.Add(&model.Open{Date: zzDate("2019-12-31"), Account: reg.Accounts().MustGet(name)})
+		}
 	}
 	n := zzOwn(sh)
+	nTied := 0
+	if sh.tied {
+		nTied = 2
+	}
 	for pos := 0; pos < n; pos++ {
 		i := pos
 		if perm != nil {
@@ -175,6 +201,9 @@ func zzShapeDirectives(reg *model.Registry, sh zzShape, in zzInputs, perm []int)
 		case i < len(sh.pr)+len(sh.cl):
 			c := sh.cl[i-len(sh.pr)]
 			b.Add(&model.Close{Date: zzDate(zzDays[c.day]), Account: reg.Accounts().MustGet(zzAccounts[c.acc])})
+		case i >= len(sh.pr)+len(sh.cl)+len(sh.bk)+nTied:
+			o := sh.op[i-len(sh.pr)-len(sh.cl)-len(sh.bk)-nTied]
+			b.Add(&model.Open{Date: zzDate(zzDays[o.day]), Account: reg.Accounts().MustGet(zzAccounts[o.acc])})
 		case i >= len(sh.pr)+len(sh.cl)+len(sh.bk):
 			// the two tied transactions: same date, same description; postings P and P+Q
 			ti := i - len(sh.pr) - len(sh.cl) - len(sh.bk)
